@@ -6,6 +6,7 @@ import (
 	"encoding/hex"
 	"encoding/json"
 	"fmt"
+	"strconv"
 	"strings"
 	"unicode/utf8"
 )
@@ -144,6 +145,24 @@ func (n *N) JQ() (string, error) {
 			return "", fmt.Errorf("i: bad")
 		}
 		return jqInt(n.Args[0]), nil
+	case "fh":
+		// (fh K): the float literal K/2
+		if err := argn(1); err != nil || !isInt(n.Args[0]) || len(n.Kids) != 0 {
+			return "", fmt.Errorf("fh: bad")
+		}
+		k, err := strconv.ParseInt(n.Args[0], 10, 62)
+		if err != nil {
+			return "", err
+		}
+		neg := k < 0
+		if neg {
+			k = -k
+		}
+		lit := strconv.FormatInt(k/2, 10) + []string{".0", ".5"}[k%2]
+		if neg {
+			return "(-" + lit + ")", nil
+		}
+		return lit, nil
 	case "z":
 		return "null", nil
 	case "t":
